@@ -100,6 +100,28 @@ func Tree(ctx context.Context) {
 	mg.CtxDeps(ctx, DepC)
 }
 
+// Watch reports whether its context was cancelled within ms milliseconds.
+func Watch(ctx context.Context, ms int) {
+	select {
+	case <-ctx.Done():
+		fmt.Println("WATCH cancelled")
+	case <-time.After(time.Duration(ms) * time.Millisecond):
+		fmt.Println("WATCH live")
+	}
+}
+
+// FailSoon fails after ms milliseconds.
+func FailSoon(ctx context.Context, ms int) error {
+	time.Sleep(time.Duration(ms) * time.Millisecond)
+	return mg.Fatal(3, "sibling failed")
+}
+
+// Siblings names a watcher and a failing dependency in one CtxDeps call.
+func Siblings(ctx context.Context) { mg.CtxDeps(ctx, mg.F(Watch, 1200), mg.F(FailSoon, 200)) }
+
+// SiblingsPlain does the same through Deps.
+func SiblingsPlain() { mg.Deps(mg.F(Watch, 1201), mg.F(FailSoon, 201)) }
+
 // Tree2 reaches C through CtxDeps only.
 func Tree2(ctx context.Context) {
 	mg.SerialCtxDeps(ctx, DepC, DepA)
@@ -376,6 +398,29 @@ func c12(c *Ctx) {
 			time.Sleep(300 * time.Millisecond)
 		}
 		c.Emit(in, c12Canon(k, impl, margin), "way="+k.way, fmt.Sprintf("d=%d", k.d), fmt.Sprintf("targets=%d", len(k.targets)), fmt.Sprintf("sigs=%d", b2i(k.sig1 != 0)+b2i(k.sig2 != 0)), "ending="+fmt.Sprint(impl["ending"]))
+	}
+	// a failing sibling is no source of cancellation
+	for _, way := range []string{"static", "mage"} {
+		for _, style := range []string{"ctx", "plain"} {
+			target := "siblings"
+			if style == "plain" {
+				target = "siblingsplain"
+			}
+			var rr runRes
+			if way == "mage" {
+				rr = runCmd(dir, append(append([]string{}, env...), "MAGEFILE_HASHFAST=1"), mageBin, target)
+			} else {
+				rr = runCmd(dir, env, static, target)
+			}
+			watch := "missing"
+			switch {
+			case strings.Contains(rr.stdout, "WATCH cancelled"):
+				watch = "cancelled"
+			case strings.Contains(rr.stdout, "WATCH live"):
+				watch = "live"
+			}
+			c.Emit(J{"op": "c12.sibling", "style": style}, J{"watch": watch, "status": rr.status}, "class=sibling", "way="+way, "style="+style)
+		}
 	}
 	// contexts of dependencies
 	for _, to := range []bool{true, false} {
